@@ -4,6 +4,7 @@ package main
 // goframe library (public API only), under recover, and observes the result.
 
 import (
+	"bufio"
 	"bytes"
 	"encoding/csv"
 	"fmt"
@@ -14,6 +15,7 @@ import (
 	"strconv"
 	"strings"
 	"sync"
+	"testing/iotest"
 	"time"
 
 	goframe "github.com/kishyassin/goframe"
@@ -119,10 +121,15 @@ func applyFn(id int) dataframe.FuncType {
 				out[i] = i
 			}
 			return out
+		case 15:
+			// appends to its argument - into spare capacity, if the slice it was given has any - and returns the
+			// cells it was given; the argument's visible cells are not touched
+			y := append(x, "k")
+			return append([]any{}, y[:len(x)]...)
 		case 14:
-			// nil for a row (column) that starts with nil, the reversed cells otherwise
+			// a single value for a row (column) that starts with nil, the reversed cells otherwise
 			if len(x) > 0 && x[0] == nil {
-				return nil
+				return "k"
 			}
 			out := make([]any, len(x))
 			for i, v := range x {
@@ -165,6 +172,16 @@ func resampleFn(id int) func([]any) any {
 				return nil
 			}
 			return x[len(x)-1]
+		case 5:
+			// scribbles on its argument (reverses it in place) and returns the new first cell: the slice is the
+			// function's own, so this must not show anywhere else
+			for i, j := 0, len(x)-1; i < j; i, j = i+1, j-1 {
+				x[i], x[j] = x[j], x[i]
+			}
+			if len(x) == 0 {
+				return nil
+			}
+			return x[0]
 		case 4:
 			// identity: the cell of the result IS the slice the library passed in (a library that reuses that
 			// slice for the next bucket changes this cell); it is recorded through its %v text
@@ -293,7 +310,21 @@ func (r *Runner) Exec(o Op) (out Out) {
 		for i, c := range o.Cells {
 			labels[i] = c.ToAny()
 		}
-		return derive(df.Loc(labels, strsOf(o.Strs)))
+		given := append([]any{}, labels...)
+		names := strsOf(o.Strs)
+		givenNames := append([]string{}, names...)
+		res, err := df.Loc(labels, names)
+		for i := range given {
+			if cellsKey([]any{given[i]}) != cellsKey([]any{labels[i]}) {
+				return Out{Status: "panic", Msg: "Loc wrote into the label slice it was given"}
+			}
+		}
+		for i := range givenNames {
+			if givenNames[i] != names[i] {
+				return Out{Status: "panic", Msg: "Loc wrote into the column-name slice it was given"}
+			}
+		}
+		return derive(res, err)
 	case "iloc":
 		rows := make([]int, len(o.Ints))
 		for i, v := range o.Ints {
@@ -468,9 +499,9 @@ func (r *Runner) Exec(o Op) (out Out) {
 			return derive(dataframe.NewDataFrame().FromCSV(path))
 		}
 		if viaRoot(o) {
-			return derive(goframe.FromCSVReader(bytes.NewReader([]byte(o.Bytes))))
+			return derive(goframe.FromCSVReader(csvSource(o)))
 		}
-		return derive(dataframe.FromCSVReader(bytes.NewReader([]byte(o.Bytes))))
+		return derive(dataframe.FromCSVReader(csvSource(o)))
 	case "tocsv", "csvroundtrip":
 		var buf bytes.Buffer
 		if o.ViaFile {
@@ -738,6 +769,31 @@ func (r *Runner) execGuard(o Op) (Out, bool) {
 	case <-time.After(execTimeout):
 		return Out{Status: "panic", Msg: "the call did not return within " + execTimeout.String()}, true
 	}
+}
+
+// csvSource: the same bytes behind readers of different habits (o.N selects; not visible to the model): a plain
+// reader, one that returns its last block together with io.EOF, one byte at a time, half-filled reads, a
+// buffered reader, and a seekable reader that has already been advanced past a preamble
+func csvSource(o Op) io.Reader {
+	data := []byte(o.Bytes)
+	switch ((o.N % 6) + 6) % 6 {
+	case 1:
+		return iotest.DataErrReader(bytes.NewReader(data))
+	case 2:
+		return iotest.OneByteReader(bytes.NewReader(data))
+	case 3:
+		return iotest.HalfReader(bytes.NewReader(data))
+	case 4:
+		return bufio.NewReaderSize(bytes.NewReader(data), 16)
+	case 5:
+		pre := "# exported by some tool\n\n"
+		r := strings.NewReader(pre + string(data))
+		if _, err := r.Seek(int64(len(pre)), io.SeekStart); err != nil {
+			panic(err)
+		}
+		return r
+	}
+	return bytes.NewReader(data)
 }
 
 func cellsKey(x []any) string {
